@@ -7,8 +7,34 @@ let res_str f r = match r with
   | Enc_ext.Ok a -> "OK " ^ f a
   | Enc_ext.Err _ -> "ERR"
   | Enc_ext.Fault _ -> "FAULT"
+(* bitrw segments: b<0|1> | w<value dec>:<nbits> | q<value hex>:<nbits> *)
+let seg_of_tok (t : string) : Enc_ext.seg =
+  let body = String.sub t 1 (String.length t - 1) in
+  match t.[0] with
+  | 'b' -> Enc_ext.SBit (n_of_int (int_of_string body))
+  | 'w' -> (match String.split_on_char ':' body with
+            | [v; nb] -> Enc_ext.SBits (n_of_int (int_of_string v), n_of_int (int_of_string nb))
+            | _ -> failwith "bad w segment")
+  | _ -> (match String.split_on_char ':' body with
+            | [v; nb] -> Enc_ext.SBits64 (n_of_hex v, n_of_int (int_of_string nb))
+            | _ -> failwith "bad q segment")
+let rec total_bits toks = match toks with
+  | [] -> 0
+  | t :: r -> (if t.[0] = 'b' then 1 else int_of_string (List.nth (String.split_on_char ':' t) 1)) + total_bits r
 let handle toks =
   match toks with
+  | "bitrw" :: segs ->
+      (* the model of the bit writer / reader pair, capacity ceil(bits/8) as in the driver *)
+      let gs = List.map seg_of_tok segs in
+      let cap = (total_bits segs + 7) / 8 in
+      let out = Enc_ext.w_out (Enc_ext.write_all (n_of_int cap) gs) in
+      (match Enc_ext.read_all (Enc_ext.br_init out) gs with
+       | None -> "OK " ^ hex_of_bytes out ^ " SHORT"
+       | Some (vs, s) ->
+           "OK " ^ hex_of_bytes out ^ " "
+           ^ (if vs = [] then "-" else String.concat "," (List.map hex_of_n vs))
+           ^ " rem=" ^ string_of_int (int_of_n (Enc_ext.remaining_bits s))
+           ^ " more=" ^ (if Enc_ext.has_more s then "1" else "0"))
   | "pack8" :: w :: vs ->
       "OK " ^ hex_of_bytes (Enc_ext.pack8 (nat_of_int (int_of_string w)) (ints vs))
       ^ " " ^ hex_of_bytes (Enc_ext.pack_spec (nat_of_int (int_of_string w)) (ints vs))
